@@ -107,6 +107,8 @@ def snp_events(run, tier, seed, tag):
             sb.reset()
             missing = rng.choice([0.0, 0.1, 0.4])
             r = run_lo(sb, samples, names, k, "a%d" % ci, threads=rng.choice([1, 2, 4]), missing=missing)
+            if r.get("err", "").startswith("build failed"):
+                continue            # a generated sample without any valid window: `ska build` refuses, nothing to observe
             # a graph without any entry node (no variant at all) makes the tool exit with an explanatory error:
             # that is a refusal, not a malformed result
             refused = r["rc"] != 0 and "no entry node" in r.get("err", "")
